@@ -155,7 +155,8 @@ class C20(Prop):
     def strategy(self, tier):
         plugin = fd({
             'roles': st.lists(st.sampled_from(ROLES), min_size=1, max_size=3, unique=True),
-            'order': st.sampled_from([0, 0, 1, 2, -2, 3, None]),
+            # the declared order; a plugin can get that wrong too (text instead of a number)
+            'order': st.sampled_from([0, 0, 1, 2, -2, 3, None, 0, 1, '5']),
             'state': st.sampled_from(['ok', 'ok', 'ok', 'ok', 'ok', 'ok', 'ok', 'missing_module', 'ok',
                                       'missing_class', 'ok', 'ctor_raises', 'ok', 'inactive', 'inactive_bool',
                                       'is_active_raises', 'inactive_env']),
@@ -182,6 +183,13 @@ class C20(Prop):
             return out
         # ---- loader -------------------------------------------------------------------------------------------
         ok = [(i, p) for i, p in enumerate(recipe['plugins']) if p['state'] == 'ok']
+        # a plugin whose declared order is not a number costs only its own contribution: where it ends up (or whether it is
+        # loaded at all) is not stated, the others are loaded in their order
+        odd = {'P%d' % i for i, p in ok if isinstance(p['order'], str)}
+        if odd:
+            out.cls('plugin_with_unusable_order')
+            base.loaded = [n for n in base.loaded if n not in odd]
+            ok = [(i, p) for i, p in ok if 'P%d' % i not in odd]
         exp_loaded = ['P%d' % i for i, p in sorted(ok, key=lambda ip: (ip[1]['order'] or 0))]
         if len(ok) < len(recipe['plugins']):
             out.cls('skipped_plugin')
@@ -198,7 +206,8 @@ class C20(Prop):
             return out
         # resource providers: later (higher order) overrides earlier on the shared key
         provs = [n for n in exp_loaded if 'resource' in recipe['plugins'][int(n[1:])]['roles']]
-        if provs and base.resource.get('shared_key') != provs[-1]:
+        odd_provider = any('resource' in recipe['plugins'][int(n[1:])]['roles'] for n in odd)
+        if provs and base.resource.get('shared_key') != provs[-1] and not odd_provider:
             out.violate('resource: the provider ordered last does not win the shared key',
                         {'got': base.resource.get('shared_key'), 'expected': provs[-1]})
         # every active plugin takes part in every hit of the fault-free run (4 hits; only the first logger is used)
